@@ -136,6 +136,9 @@ func c05sKV(toks []string, k string) string {
 
 var c05sBase string
 
+// the time a refresh is given to finish: generous once (a loaded machine), short after a first timeout
+var c05sPatience = 10 * time.Second
+
 func c05sOne(t *verifh.T, toks []string) {
 	blob, err := verifh.Unhex(c05sKV(toks, "blob"))
 	if err != nil {
@@ -207,11 +210,14 @@ func c05sOne(t *verifh.T, toks []string) {
 	if p := verifh.Protect(func() {
 		first, body = get(miPath)
 		code = first
-		deadline := time.Now().Add(3 * time.Second)
+		deadline := time.Now().Add(c05sPatience)
 		for code == 202 && time.Now().Before(deadline) {
 			time.Sleep(2 * time.Millisecond)
 			polls++
 			code, body = get(miPath)
+		}
+		if code == 202 {
+			c05sPatience = 2 * time.Second
 		}
 	}); p != "" {
 		t.One(args, "panic")
